@@ -364,7 +364,14 @@ func (r *Reconciler) selectNodes(logger logr.Logger, daemonset *datadoghqv1alpha
 		currentNodes = canaryStatus.Nodes
 	}
 
-	nbCanaryPod, err := intstrutil.GetValueFromIntOrPercent(daemonsetSpec.Strategy.Canary.Replicas, int(daemonset.Status.Desired), true)
+	// A percentage is resolved against the number of nodes the ExtendedDaemonSet targets, counted from
+	// the nodes themselves: status.desired sums the active and the canary replica sets and is
+	// transiently inflated while the active one has not yet left the canary nodes.
+	nbTargetedNodes, err := r.countTargetedNodes(logger, daemonsetSpec, newPod)
+	if err != nil {
+		return err
+	}
+	nbCanaryPod, err := intstrutil.GetValueFromIntOrPercent(daemonsetSpec.Strategy.Canary.Replicas, nbTargetedNodes, true)
 	if err != nil {
 		return err
 	}
@@ -472,6 +479,31 @@ func (r *Reconciler) selectNodes(logger logr.Logger, daemonset *datadoghqv1alpha
 	}
 
 	return nil
+}
+
+// countTargetedNodes returns the number of nodes the pods of the ExtendedDaemonSet can be scheduled on
+// (same node listing as the replica-set controller, then the scheduling predicates).
+func (r *Reconciler) countTargetedNodes(logger logr.Logger, daemonsetSpec *datadoghqv1alpha1.ExtendedDaemonSetSpec, pod *corev1.Pod) (int, error) {
+	listOptions := []client.ListOption{}
+	if daemonsetSpec.Selector != nil {
+		selector, err := utils.ConvertLabelSelector(logger, daemonsetSpec.Selector)
+		if err != nil {
+			return 0, err
+		}
+		listOptions = append(listOptions, &client.MatchingLabelsSelector{Selector: selector})
+	}
+	nodeList := &corev1.NodeList{}
+	if err := r.client.List(context.TODO(), nodeList, listOptions...); err != nil {
+		return 0, err
+	}
+	nbNodes := 0
+	for id := range nodeList.Items {
+		if scheduler.CheckNodeFitness(logger.WithValues("filter", "Targeted nodes"), pod, &nodeList.Items[id]) {
+			nbNodes++
+		}
+	}
+
+	return nbNodes, nil
 }
 
 func isCanaryActive(daemonset *datadoghqv1alpha1.ExtendedDaemonSet, activeERSName string, upToDateERSName string, isCanaryFailed bool) bool {
